@@ -35,6 +35,7 @@ PATHS = [
     (), (("prim", "a"),), (("prim", "a"), ("prim", "b")), (("prim", "a"), ("prim", 0)), (("prim", 0),),
     (("prim", 1),), (("prim", 1.5),), (("prim", True),), (M,), (Ls,), (MOL,), (("prim", "a"), Ls), (M, M),
     (("prim", "m"),), (("prim", "m"), ("prim", "x")),
+    (("prim", "a"), ("prim", -1)), (("prim", -1),),       # a negative integer is a mapping key, never a list index
 ]
 PATHS8 = [PATHS[i] for i in (1, 3, 4, 8, 9, 12, 13, 14)]
 CONDS = [L("ValueDataType", "equal_to", bool), L("ValueDataType", "equal_to", int), L("Value", "equal_to", 3),
